@@ -18,6 +18,8 @@ use crate::leaf::{Leaf, LeafId};
 
 mod dfa_util;
 mod export;
+#[cfg(logos_verif)]
+mod verif;
 
 /// A configuration used to construct a graph
 #[derive(Debug)]
@@ -429,6 +431,8 @@ impl Graph {
 
         let Some(start_id) = graph.dfa.universal_start_state(Anchored::Yes) else {
             graph.errors.push(GraphError::NoUniversalStart);
+            #[cfg(logos_verif)]
+            graph.verif_snapshot("final");
             return Ok(graph);
         };
         if graph.dfa.has_empty() {
@@ -437,6 +441,8 @@ impl Graph {
                     graph.errors.push(GraphError::EmptyMatch(LeafId(leaf_id)));
                 }
             }
+            #[cfg(logos_verif)]
+            graph.verif_snapshot("final");
             return Ok(graph);
         }
 
@@ -494,6 +500,8 @@ impl Graph {
         // Sort for generated code stability (by leaf id)
         // as the vec in the DisambiguationError is sorted by leaf id already
         graph.errors.sort_unstable();
+        #[cfg(logos_verif)]
+        graph.verif_snapshot("raw");
 
         // Find early accept states
         for state in graph.iter_states() {
@@ -518,6 +526,9 @@ impl Graph {
             }
         }
 
+        #[cfg(logos_verif)]
+        graph.verif_snapshot("early");
+
         // Remove late matches when all incoming edges contain the early match since they are
         // unnecessary in this case.
         for state in graph.iter_states() {
@@ -530,6 +541,9 @@ impl Graph {
                 }
             }
         }
+
+        #[cfg(logos_verif)]
+        graph.verif_snapshot("late");
 
         // Prune dead ends (states that do not alter the context and do not lead to a state that
         // does).
@@ -574,6 +588,9 @@ impl Graph {
         // And then remove dead states from the graph entirely.
         graph.retain_states(&reach_accept, true);
 
+        #[cfg(logos_verif)]
+        graph.verif_snapshot("prune");
+
         // Now we can deduplicate states based on their edges.
         loop {
             let graph_size = graph.states.len();
@@ -606,6 +623,9 @@ impl Graph {
                 break;
             }
         }
+
+        #[cfg(logos_verif)]
+        graph.verif_snapshot("final");
 
         Ok(graph)
     }
